@@ -192,8 +192,9 @@ FIXED += [
 FIXED += [
     ("C01", "rejected:bind", "c681d67", "'bind(c) x, y' (BIND statement without the optional '::') was rejected: the language-binding-spec was cut before its closing parenthesis",
      {"mode": "source", "std": "f2003", "ic": True, "text": "module m\n  bind(c) x, /blk/\n  bind(c, name = 'q') y\nend module m\n"}),
-    ("C01", "rejected:format", "bc9bf99", "'format (-1p e12.4)': a signed scale factor directly in front of a data edit descriptor was rejected",
-     {"mode": "source", "std": "f2003", "ic": True, "text": "subroutine s\n10 format (-1p e12.4, +2p f8.3)\nend subroutine s\n"}),
+    ("C02", "token-mismatch", "bc9bf99", "'format (-1p e12.4)': a signed scale factor directly in front of a data edit descriptor was rejected",
+     {"mode": "source", "std": "f2003", "text": "subroutine s\n10 format (-1p e12.4, +2p f8.3)\nend subroutine s\n",
+      "expected": "SUBROUTINE s\n10 FORMAT(-1P, E12.4, +2P, F8.3)\nEND SUBROUTINE s"}),
 ]
 
 OPEN = [
